@@ -31,7 +31,8 @@ NORMALISERS = {'os.path.normpath', 'os.path.abspath', 'posixpath.normpath'}
 
 # rules of sibling properties that are necessary conditions of this one too
 # (evaluated by the sibling module on the same graphs, reported under this property)
-ALSO = {'C02': {'R02.2': 'the moved entry keeps modes and mtimes when the move has to copy'},
+ALSO = {'C16': {'R16.2': 'an exception that leaves the per-argument loop ends the run with a non-zero status after arguments have been moved (and the remaining ones are never attempted)'},
+ 'C02': {'R02.2': 'the moved entry keeps modes and mtimes when the move has to copy'},
  'C04': {'R04.6': 'a .trashinfo released by a process that did not reserve it leaves another '
                   "entry's payload without info"},
  'C05': {'R05.3': 'the payload is renamed within one volume (after resolving links): a copy '
